@@ -33,6 +33,38 @@ LOCALS = {"result": List(MARK2LIGA), "componentAnchors": Dict(INT, List(NA)), "l
 COMMON = dict(props=["C06"], params={"self": Ref("C06_Writer")}, returns=List(MARK2LIGA), requires=REQUIRES, merge_branches=False, dict_key_positions=False)
 _RT = Runtime(c06rt.stage_cases, lambda d: {"self": c06rt.writer_at(d, "assigned")}, call=lambda fn, a: fn(a["self"]))
 
+
+
+# `max(d.keys())` through the key SET of the dict (the builtin model goes through the key list: `n <= max` for a key n then needs the key-position
+# fact of every dict on the path, which the other obligations of the function pay for)
+def _make_max_keys():
+    import z3
+
+    from pyvc import models as _models
+    from pyvc.core import Val, fresh
+    from pyvc.symex import FuncRef
+
+    from . import c17_model as M
+
+    @M.shim_function("max_keys", "max(d.keys()) for a dict d with int keys: ValueError iff d is empty; otherwise a key of d that is not smaller than any key of d")
+    def _max_keys(ex, st, args, kwargs, node):
+        info = _models.carrier_info(args[0]) if len(args) == 1 else None
+        meta = getattr(info, "dict_items", None) if info is not None else None
+        if kwargs or meta is None or meta[2] != "keys" or meta[0].k != INT:
+            return _models.BUILTIN_MODELS["builtins.max"].model(ex, st, args, kwargs, node)
+        dt, d, _ = meta
+        dom = dt.sort().dom(d)
+        ex.safety(st, dom != z3.K(z3.IntSort(), z3.BoolVal(False)), "ValueError", node)
+        m, x = fresh(INT, "maxkey"), fresh(INT, "mx")
+        st.assume(z3.Select(dom, m))
+        st.assume(z3.ForAll([x], z3.Implies(z3.Select(dom, x), m >= x)))
+        return Val(INT, m)
+
+    return M.native_global(Val.obj(FuncRef(_max_keys, "c17shim.max_keys")), max)
+
+
+MAX_KEYS = _make_max_keys()
+
 # the appended record, position by position (r0: ghost copy of `result` taken when ligatureMarks is created)
 _APPENDED = [
     "len(result) == len(r0) + 1 and result[len(r0)].name == glyphName and result[len(r0)].marks == ligatureMarks",
@@ -176,7 +208,8 @@ _RES_COUNT = (f"all(result[k].name in {AL} and len(result[k].marks) >= 1 and all
 contract(
     FN,
     name="count",
-    **{**COMMON, "dict_key_positions": True},  # (`n <= max(d.keys())` for every key n goes through the key's position in the key list)
+    **COMMON,
+    globals={"max": MAX_KEYS},
     ensures={"component-count-preserved": _RES_COUNT},
     canaries={"never-empty": "len(result) > 0", "always-one-component": "all(len(result[k].marks) == 1 for k in range(len(result)))"},
     locals={**LOCALS, "r0": List(MARK2LIGA), "ca0": Dict(INT, List(NA))},
@@ -216,47 +249,47 @@ def _kept(lb, x, b):
     return f"({_named(x)} and not (({x}.number + 0) in {lb} and {lb}[{x}.number] > {b}))"
 
 
-_MEM_LIST = "all(n in componentAnchors and all(any(componentAnchors[n][m] == x for m in range(len(componentAnchors[n]))) for x in mem[n]) for n in mem)"
-_LM_MEM = "all(all(any(ligatureMarks[n - 1][m] == x for m in range(len(ligatureMarks[n - 1]))) for x in mem[n]) for n in mem)"
+_MEM_LIST = "all(n in componentAnchors and all(x in componentAnchors[n] for x in mem[n]) for n in mem)"
+_LM_MEM = "all(all(x in ligatureMarks[n - 1] for x in mem[n]) for n in mem)"
 
 _GK = f"{AL}[result[k].name]"
 contract(
     FN,
     name="complete",
-    **{**COMMON, "dict_key_positions": True},
+    **COMMON,
+    globals={"max": MAX_KEYS},
     ensures={
         # a named anchor numbered N of the glyph that no LATER bare '_N' resets is in component N of the glyph's statement
         "kept-anchors-in-their-component": f"all(result[k].name in {AL} and all(implies({_named(_GK + '[b]')} and not any({_bare(_GK + '[c]')} and {_GK}[c].number == {_GK}[b].number for c in range(b + 1, len({_GK}))),"
-        f" {_GK}[b].number <= len(result[k].marks) and any(result[k].marks[{_GK}[b].number - 1][m] == {_GK}[b] for m in range(len(result[k].marks[{_GK}[b].number - 1]))))"
+        f" {_GK}[b].number <= len(result[k].marks) and {_GK}[b] in result[k].marks[{_GK}[b].number - 1])"
         f" for b in range(len({_GK}))) for k in range(len(result)))",
     },
     canaries={"never-empty": "len(result) > 0"},
-    locals={**LOCALS, "r0": List(MARK2LIGA), "ca0": Dict(INT, List(NA)), "lb": LB, "mem": MEM, "lbs": List(LB), "mems": List(MEM), "mem0": MEM, "mtmp": SET_NA2},
-    ghost_vars={**_R0, "mtmp": (SET_NA2, "set()"), "ca0": (Dict(INT, List(NA)), "{}"), "lb": (LB, "{}"), "mem": (MEM, "{}"), "lbs": (List(LB), "[]"), "mems": (List(MEM), "[]"),
-                "src": (List(INT), "[]"), "mem0": (MEM, "{}")},
+    locals={**LOCALS, "r0": List(MARK2LIGA), "ca0": Dict(INT, List(NA)), "lb": LB, "mem": MEM, "lbs": Dict(INT, LB), "mems": Dict(INT, MEM), "src": Dict(INT, INT), "mem0": MEM, "mtmp": SET_NA2},
+    ghost_vars={**_R0, "mtmp": (SET_NA2, "set()"), "ca0": (Dict(INT, List(NA)), "{}"), "lb": (LB, "{}"), "mem": (MEM, "{}"), "lbs": (Dict(INT, LB), "{}"), "mems": (Dict(INT, MEM), "{}"),
+                "src": (Dict(INT, INT), "{}"), "mem0": (MEM, "{}")},
     ghost={**_R0_GHOST, "number = anchor.number": ["ca0 = {**componentAnchors}", "mem0 = {**mem}"],
            "componentAnchors = {}": ["lb = {}", "mem = {}"],
            SETBARE: ["lb = {**lb, number: j}", "mem = {**mem, number: set()}"],
            SETAPP: ["mtmp = mem[number] if (number + 0) in mem else set()", "mtmp.add(anchor)", "mem = {**mem, number: mtmp}"],
-           APPEND: ["src = src + [i]", "lbs = lbs + [lb]", "mems = mems + [mem]"]},
+           # (per record k: dicts keyed by k, not lists — an update is an array store, no sequence reasoning for the earlier records)
+           APPEND: ["src = {**src, len(r0): i}", "lbs = {**lbs, len(r0): lb}", "mems = {**mems, len(r0): mem}"]},
     hints={
         APPEND: _APPENDED + [
-            "len(lbs) == len(r0) + 1 and len(mems) == len(r0) + 1 and len(src) == len(r0) + 1 and lbs[len(r0)] == lb and mems[len(r0)] == mem and src[len(r0)] == i",
+            "lbs[len(r0)] == lb and mems[len(r0)] == mem and src[len(r0)] == i",
             f"all(implies({_kept('lb', 'anchors[b]', 'b')}, (anchors[b].number + 0) in mem and anchors[b] in mem[anchors[b].number]) for b in range(len(anchors)))",
         ],
         SETAPP: [
             "all(implies(n != number, n in componentAnchors and componentAnchors[n] == ca0[n]) for n in ca0)",
             "all(n in ca0 or n == number for n in componentAnchors)",
             "(number + 0) in componentAnchors and componentAnchors[number] == (ca0[number] if (number + 0) in ca0 else []) + [anchor]",
-            "implies((number + 0) not in ca0, len(componentAnchors[number]) == 1 and componentAnchors[number][0] == anchor)",
-            "implies((number + 0) in ca0, len(componentAnchors[number]) == len(ca0[number]) + 1)",
-            "implies((number + 0) in ca0, componentAnchors[number][len(ca0[number])] == anchor)",
-            "implies((number + 0) in ca0, all(componentAnchors[number][m] == ca0[number][m] for m in range(len(ca0[number]))))",
+            # (membership, not positions: what the solvers know natively about `x in (xs + [a])`)
+            "anchor in componentAnchors[number]",
             "all(implies(n != number, n in mem and mem[n] == mem0[n]) for n in mem0) and all(n in mem0 or n == number for n in mem)",
-            "all(any(componentAnchors[number][m] == x for m in range(len(componentAnchors[number]))) for x in mem[number])",
+            "all(x in componentAnchors[number] for x in mem[number])",
             # the invariant's clause for the updated entry and for the others, in the shape of the invariant
-            "all(implies(n == number, n in componentAnchors and all(any(componentAnchors[n][m] == x for m in range(len(componentAnchors[n]))) for x in mem[n])) for n in mem)",
-            "all(implies(n != number, n in componentAnchors and all(any(componentAnchors[n][m] == x for m in range(len(componentAnchors[n]))) for x in mem[n])) for n in mem)",
+            "all(implies(n == number, n in componentAnchors and all(x in componentAnchors[n] for x in mem[n])) for n in mem)",
+            "all(implies(n != number, n in componentAnchors and all(x in componentAnchors[n] for x in mem[n])) for n in mem)",
         ],
         SETBARE: [
             "all(implies(n != number, n in componentAnchors and componentAnchors[n] == ca0[n]) for n in ca0)",
@@ -273,12 +306,11 @@ contract(
     },
     loops={
         OUTER: Loop(index="i", invariants={
-            "len": "len(mems) == len(result) and len(lbs) == len(result) and len(src) == len(result)",
-            "src": f"all(0 <= src[k] and src[k] < i and result[k].name == {KEYS}[src[k]] for k in range(len(src)))",
+            "src": f"all(0 <= src[k] and src[k] < i and result[k].name == {KEYS}[src[k]] for k in range(len(result)))",
             "last-bare": f"all(all(0 <= lbs[k][n] and lbs[k][n] < len({AL}[{KEYS}[src[k]]]) and {_bare(AL + '[' + KEYS + '[src[k]]][lbs[k][n]]')} and {AL}[{KEYS}[src[k]]][lbs[k][n]].number == n for n in lbs[k]) for k in range(len(result)))",
             "kept": f"all(all(implies({_kept('lbs[k]', AL + '[' + KEYS + '[src[k]]][b]', 'b')}, ({AL}[{KEYS}[src[k]]][b].number + 0) in mems[k] and {AL}[{KEYS}[src[k]]][b] in mems[k][{AL}[{KEYS}[src[k]]][b].number])"
             f" for b in range(len({AL}[{KEYS}[src[k]]]))) for k in range(len(result)))",
-            "listed": "all(all(n >= 1 and n <= len(result[k].marks) and all(any(result[k].marks[n - 1][m] == x for m in range(len(result[k].marks[n - 1]))) for x in mems[k][n]) for n in mems[k]) for k in range(len(result)))",
+            "listed": "all(all(n >= 1 and n <= len(result[k].marks) and all(x in result[k].marks[n - 1] for x in mems[k][n]) for n in mems[k]) for k in range(len(result)))",
         }),
         INNER: Loop(index="j", invariants={
             "keys": "all(n in componentAnchors for n in mem) and all(n >= 1 for n in componentAnchors)",
